@@ -1,5 +1,12 @@
 # id -> (technique, level_claimed.text, design_ref)
 CLAIMED = {
+    "C15": (
+        "linear window-confinement proof on go/ssa (Fourier-Motzkin over path conditions and loop induction facts), replacement-mode dispatch lint on the syntax tree with go/types, protection-test cell identity by canonical address, dominance/path rules for reference exclusion and per-column table freshness, write-effect frame analysis",
+        "Decides statically the window, replacement-dispatch, protection and frame clauses of C15 on Mask, MaskOccurences and MaskUnique, for every window and option: each residue store of Mask has start <= i <= start+length-1 and 0 <= i <= L-1 on every path (confinement and truncation), the start guard accepts exactly 0<=start<=L; "
+        "the replacement is the wildcard of the alignment's own alphabet for AMBIG/\"\" (error for other alphabets), the GAP constant for \"GAP\", the given byte for a one-character string and an error otherwise, and the stored value is that replacement variable; the gap and reference protection tests read exactly the cell that is written, under nogap/noref; "
+        "in MaskOccurences the occurrence tables are updated only when no reference is given or the row's name differs from the reference name; per-column tables are allocated inside the column loop; the only receiver memory written is row residues (no name, order, count or length write). "
+        "NOT decided: the most-frequent-character choice, the occurrence threshold selection as evaluated on data.",
+        "DESIGN.md §3 C15"),
     "C14": (
         "map-range body classifier (AST + go/types) for order-sensitivity, linear-inequality guard analysis of site/row arguments with index-safety proofs, type-resolved alphabet/wildcard agreement lint, write-effect (purity) analysis, published-buffer-reuse value-flow rule",
         "Decides statically the determinism, boundary, alphabet and purity clauses of C14 for every alignment and argument: every range over a map in package align (MaxCharStats, Entropy, Pssm, profiles, rarefaction, ...) is order-insensitive or collect-then-sort, so ties and float sums "
